@@ -112,6 +112,71 @@ func (r *brkRunner) begin(rid int) bool {
 	}
 }
 
+// burst: n callers enter Execute at the same instant (concurrently); the admitted ones are reported first, as the
+// sequential model admits first-come
+func (r *brkRunner) burst(rid, n int) {
+	type att struct {
+		p       *brkPending
+		started chan struct{}
+	}
+	var atts []att
+	gate := make(chan struct{})
+	for i := 0; i < n; i++ {
+		a := att{p: &brkPending{release: make(chan string, 1), done: make(chan error, 1)}, started: make(chan struct{}, 1)}
+		atts = append(atts, a)
+		go func() {
+			var err error
+			defer func() {
+				if rec := recover(); rec != nil {
+					err = errPanicked
+				}
+				a.p.done <- err
+			}()
+			<-gate
+			err = r.cb.Execute(func() error {
+				a.started <- struct{}{}
+				switch <-a.p.release {
+				case "ok":
+					return nil
+				case "panic":
+					panic("boom")
+				default:
+					return errBackend
+				}
+			})
+		}()
+	}
+	synctest.Wait()
+	close(gate)
+	synctest.Wait()
+	var admitted []att
+	var rejected []error
+	for _, a := range atts {
+		select {
+		case <-a.started:
+			admitted = append(admitted, a)
+		default:
+			rejected = append(rejected, <-a.p.done)
+		}
+	}
+	k := 0
+	for _, a := range admitted {
+		r.ops = append(r.ops, "BBegin "+ZI(rid+k))
+		r.pending[rid+k] = a.p
+		r.order = append(r.order, rid+k)
+		r.observe(0)
+		r.stats["admitted"]++
+		k++
+	}
+	for _, err := range rejected {
+		r.ops = append(r.ops, "BBegin "+ZI(rid+k))
+		r.observe(brkErrCode(err))
+		r.stats[fmt.Sprintf("rejected_%d", brkErrCode(err))]++
+		k++
+	}
+	r.stats["burst"]++
+}
+
 func (r *brkRunner) end(rid int, outcome string) bool {
 	p, ok := r.pending[rid]
 	if !ok {
@@ -172,9 +237,13 @@ func runBrkCase(c *BrkCase) (string, map[string]int) {
 				}
 				op = BrkOp{K: "X", Rid: nextRid, O: o}
 				nextRid++
-			case x < 50:
+			case x < 44:
 				op = BrkOp{K: "B", Rid: nextRid}
 				nextRid++
+			case x < 50:
+				k := []int{2, 3, 8, 16}[g.Intn(4)]
+				op = BrkOp{K: "P", Rid: nextRid, D: int64(k)}
+				nextRid += k
 			case x < 72 && len(r.order) > 0:
 				o := "ok"
 				if g.Chance(badBias) {
@@ -230,6 +299,12 @@ func (r *brkRunner) apply(op BrkOp) {
 		}
 	case "T":
 		r.advance(op.D)
+	case "P":
+		n := int(op.D)
+		if n < 2 {
+			n = 2
+		}
+		r.burst(op.Rid, n)
 	}
 }
 
@@ -247,6 +322,10 @@ func brkCorpus() []BrkCase {
 		// successes of an aborted half-open episode must not carry over; re-open on trial failure
 		{Max: 2, Fthr: 1, Sthr: 2, Interval: 5 * s, Timeout: 5 * s, Ops: []BrkOp{{K: "X", Rid: 1, O: "err"}, {K: "T", D: 5*s + 1}, {K: "X", Rid: 2, O: "ok"}, {K: "X", Rid: 3, O: "err"},
 			{K: "T", D: 5*s + 1}, {K: "X", Rid: 4, O: "ok"}, {K: "X", Rid: 5, O: "ok"}}},
+		// concurrent callers at the open -> half-open boundary and inside half-open: at most max_requests trials in total
+		{Max: 1, Fthr: 1, Sthr: 1, Interval: 5 * s, Timeout: 5 * s, Ops: []BrkOp{{K: "X", Rid: 1, O: "err"}, {K: "T", D: 5*s + 1}, {K: "P", Rid: 10, D: 8}}},
+		{Max: 2, Fthr: 1, Sthr: 2, Interval: 5 * s, Timeout: 5 * s, Ops: []BrkOp{{K: "X", Rid: 1, O: "err"}, {K: "T", D: 5*s + 1}, {K: "P", Rid: 10, D: 16}, {K: "P", Rid: 40, D: 4}}},
+		{Max: 3, Fthr: 1, Sthr: 3, Interval: 5 * s, Timeout: 5 * s, Ops: []BrkOp{{K: "X", Rid: 1, O: "err"}, {K: "T", D: 5*s + 1}, {K: "B", Rid: 2}, {K: "P", Rid: 10, D: 32}}},
 		// panicking trial re-opens
 		{Max: 3, Fthr: 1, Sthr: 2, Interval: 5 * s, Timeout: 5 * s, Ops: []BrkOp{{K: "X", Rid: 1, O: "panic"}, {K: "T", D: 5*s + 1}, {K: "X", Rid: 2, O: "panic"}, {K: "X", Rid: 3, O: "ok"}}},
 		// overlapping: requests admitted while closed end during half-open
